@@ -55,6 +55,27 @@ def replay_lines(lines: list[str]) -> tuple[list, BaseException | None]:
         os.unlink(name)
 
 
+def replay_dict(d: dict) -> tuple[list, BaseException | None]:
+    """Replay a saved-state dict {dtm: line} through the real FileTransport (packet_dict=...)/ReadProtocol."""
+    got: list = []
+
+    async def go():
+        import ramses_tx.transport as T
+        from ramses_tx.protocol import protocol_factory
+
+        proto = protocol_factory(got.append, disable_sending=True)
+        try:
+            await T.transport_factory(proto, packet_dict=d, loop=asyncio.get_running_loop())
+            await proto.wait_for_connection_made()
+            await proto.wait_for_connection_lost()
+        except BaseException as e:  # noqa: BLE001
+            return e
+        return None
+
+    err = asyncio.run(go())
+    return got, err
+
+
 class PacketLog:
     """The real packet logger writing to a temp file."""
 
